@@ -105,11 +105,37 @@ func runC20(c *Ctx) {
 	descr := fmt.Sprintf("kdcs=%s request{realm=%s payload=%d defect=%q}", strings.Join(kd, " "), realmKind, len(payload), defect)
 	c.Res.CaseKey = descr
 	t0 := time.Now()
-	r := c.W.Do(req)
+	// companions: further well-formed requests for the default realm in flight at the same time
+	var comp []*env.Pending
+	var compKerb [][]byte
+	if c.T.Bool(1, 3) {
+		for i := 0; i < 1+c.T.Choose(2); i++ {
+			pl := c.T.Bytes(20+c.T.Choose(900), byte(0x80+i))
+			kb := append(binary.BigEndian.AppendUint32(nil, uint32(len(pl))), pl...)
+			compKerb = append(compKerb, kb)
+			comp = append(comp, c.W.Start(&env.HTTPReq{Name: fmt.Sprintf("kp-c%d", i), From: fmt.Sprintf("10.5.0.%d:53100", 10+i), Method: "POST", Path: "/KdcProxy", Body: codec.KDCProxyMessage(kb, "", false), Header: [][2]string{{"Content-Type", "application/kerberos"}}}))
+		}
+		c.S.Count("probe.concurrent_requests")
+		descr += fmt.Sprintf(" +%d concurrent requests", len(comp))
+	}
+	main := c.W.Start(req)
+	c.W.WaitAll(append([]*env.Pending{main}, comp...), 40*time.Second)
+	r := main.Res
 	took := time.Since(t0)
+	if r.Status != 0 && took > 15*time.Second && len(comp) > 0 {
+		took = 0 // the wait covers the slowest of the concurrent requests; judged per request below
+	}
+	// KDC connections that carry the main request's embedded message (companions make their own)
 	contacted := 0
 	for _, k := range kdcs {
-		contacted += k.Accepted
+		for _, g := range k.Got {
+			if len(comp) == 0 || (len(kerb) >= 4 && len(g) > 0 && (bytes.Equal(g, kerb) || bytes.Equal(g, kerb[4:]))) {
+				contacted++
+			}
+		}
+		if len(comp) == 0 {
+			contacted += k.Accepted - len(k.Got)
+		}
 	}
 	sample := fmt.Sprintf("%s => status=%d after %v, kdc-connections=%d", descr, r.Status, took.Round(time.Millisecond), contacted)
 	c.Samplef("%s", sample)
@@ -138,6 +164,25 @@ func runC20(c *Ctx) {
 	if other.Accepted+otherU.Accepted > 0 {
 		c.S.Fail("C20", "wrong-realm-contacted", "%s: a KDC of another realm was contacted", sample)
 		return
+	}
+	for i, p := range comp {
+		cr := p.Res
+		if cr.Status == 0 {
+			c.S.Fail("C20", "no-http-response:concurrent", "%s: concurrent request %d got no HTTP response (eof=%v timeout=%v)", sample, i, cr.EOF, cr.Timeout)
+			return
+		}
+		if answering == 0 {
+			if cr.Status == 200 {
+				c.S.Fail("C20", "reply-invented", "%s: concurrent request %d: no KDC answers, yet 200", sample, i)
+				return
+			}
+			continue
+		}
+		msg, err := codec.ParseKDCProxyReply(cr.Body)
+		if cr.Status != 200 || err != nil || !matchesKDC(kdcs, compKerb[i], msg) {
+			c.S.Fail("C20", "answer-not-relayed:concurrent", "%s: concurrent request %d: status %d, body is the reply to this request: %v (%v)", sample, i, cr.Status, err == nil && matchesKDC(kdcs, compKerb[i], msg), err)
+			return
+		}
 	}
 	if wantStatus != 0 {
 		if r.Status != wantStatus {
@@ -180,11 +225,13 @@ func runC20(c *Ctx) {
 		if !(strings.HasPrefix(k.Behave, "reply")) {
 			continue
 		}
-		want := k.Reply
 		sentWant := kerb
 		if k.Proto == "udp" {
-			want = append(binary.BigEndian.AppendUint32(nil, uint32(len(k.Reply))), k.Reply...)
 			sentWant = kerb[4:]
+		}
+		want := k.ReplyFor(sentWant)
+		if k.Proto == "udp" {
+			want = append(binary.BigEndian.AppendUint32(nil, uint32(len(want))), want...)
 		}
 		if bytes.Equal(msg, want) {
 			matched = true
@@ -211,4 +258,25 @@ func firstLine(s string) string {
 		return s[:i]
 	}
 	return s
+}
+
+// matchesKDC reports whether msg is what some answering KDC replies to the embedded message.
+func matchesKDC(kdcs []*env.KDC, kerb, msg []byte) bool {
+	for _, k := range kdcs {
+		if !strings.HasPrefix(k.Behave, "reply") {
+			continue
+		}
+		sent := kerb
+		if k.Proto == "udp" {
+			sent = kerb[4:]
+		}
+		want := k.ReplyFor(sent)
+		if k.Proto == "udp" {
+			want = append(binary.BigEndian.AppendUint32(nil, uint32(len(want))), want...)
+		}
+		if bytes.Equal(msg, want) {
+			return true
+		}
+	}
+	return false
 }
